@@ -78,6 +78,17 @@ def run(ctx):
             exercise(prog, datas)
         for g in (0, -1):
             exercise(A.ProcessRotateLeft(1, g, A.GreedyBytes), [b"ab"])
+        # ---- transforms over content whose bytes are not its value (framing, padding, another transform below): what is transformed is what the content wrote
+        inners = [(A.Prefixed(A.Alias("Byte"), A.GreedyBytes), [b"abc", b"", b"\x80\x01"]), (A.NullTerminated(A.GreedyBytes), [b"abc", b""]), (A.Padded(8, A.Bytes(3)), [b"abc"]),
+                  (A.ProcessXor(0x5a, A.GreedyBytes), [b"abc", b"\x5a\x00"]), (A.ProcessXor(b"\x01\x80\xff", A.GreedyBytes), [b"abcde"]), (A.ByteSwapped(A.Bytes(4)), [b"abcd"]),
+                  (A.ProcessRotateLeft(3, 2, A.GreedyBytes), [b"abcd", b"abc"]), (A.Struct(A.Renamed("n", A.Alias("Int16ub")), A.Renamed("s", A.CString("utf8"))), [{"n": 258, "s": "xy"}]),
+                  (A.Aligned(4, A.Bytes(3)), [b"abc"]), (A.PascalString(A.Alias("Byte"), "utf8"), ["h\u00e9"]), (A.Alias("Int32ul"), [0x01020304])]
+        outers = [lambda x: A.ProcessRotateLeft(-9, 1, x), lambda x: A.ProcessRotateLeft(8, 3, x), lambda x: A.ProcessRotateLeft(5, 4, x), lambda x: A.ProcessXor(0x0f, x),
+                  lambda x: A.ProcessXor(b"\x01\x02", x), lambda x: A.BitsSwapped(x) if x["k"] in ("Padded", "ByteSwapped", "Aligned", "Alias") else A.ProcessXor(0xff, x),
+                  lambda x: A.ByteSwapped(x) if x["k"] in ("Padded", "ByteSwapped", "Aligned", "Alias") else A.ProcessRotateLeft(1, 1, x)]
+        for (inner, vals), outer in itertools.product(inners, outers):
+            exercise(outer(inner), vals, None, (0, 1))
+            exercise(A.Struct(A.Renamed("h", A.Alias("Byte")), A.Renamed("x", A.Prefixed(A.Alias("Byte"), outer(inner))), A.Renamed("t", A.Alias("Byte"))), [{"h": 1, "x": v, "t": 2} for v in vals[:1]])
         # ---- byte / bit order swapping
         for size in range(1, 17):
             for mk in (A.ByteSwapped, A.BitsSwapped):
